@@ -63,6 +63,8 @@ def shipped_coverage(ss):
 def schema_defs(seed, tier, n_generated, feature_overrides=None, label="p21", imported=True, want=None):
     """deterministic list of schema dicts: kitchen sink + n generated + imported shipped schemas"""
     out = [kitchen.kitchen_sink()]
+    if (feature_overrides or {}).get("inverse"):
+        out.append(kitchen.inverse_sink())
     for k in range(n_generated):
         r = core.rng(seed, label, "schema", k)
         feat = {f: (r.random() < p) for f, p in sorted(FEATURE_P.items())}
